@@ -81,6 +81,8 @@ def typ(t):
             items.append(s)
             if i == t["extAfter"]:
                 items.append("...")
+        if not t["comps"] and t["extAfter"] == 0:
+            items.append("...")          # extensible, no root component
         return "%s { %s }" % ("SET" if t["set"] else "SEQUENCE", ", ".join(items))
     if k == "choice":
         items = []
